@@ -325,7 +325,8 @@ def handle (j : Json) : Except String Json := do
     let docs ← (j.getObjValD "docs").getArr? >>= fun a => a.toList.mapM valOfJson
     let tbl := strTable (j.getObjValD "jf")
     let jf := fun (r : String) => ((tbl.find? (·.1 == r)).map (·.2)).getD r
-    pure (Json.mkObj [("ok", Json.str (jsonEncodeStream jf docs))])
+    let pretty := (j.getObjValAs? Bool "pretty").toOption.getD false
+    pure (Json.mkObj [("ok", Json.str (if pretty then jsonPrettyStream jf docs else jsonEncodeStream jf docs))])
   | "jsondec" =>
     -- json.go:jsonUnmarshalStream + normalize: the model's own JSON reader.  `fol` maps a number literal to
     -- the float text it denotes ("" = no float64 holds it)
